@@ -1,5 +1,5 @@
 (* Xml/Harness.v — correspondence driver for the XML lexer model (C11). *)
-From Verif Require Import Common.Base Common.Codec Common.Lx Xml.Model Xml.WellFormed Xml.Checker.
+From Verif Require Import Common.Base Common.Codec Common.Lx Xml.Model Xml.WellFormed Xml.Checker Xml.Agree.
 
 (* a slice as observed: nil = -1 -1; empty = -2 -2 (Go keeps no reliable address for a
    zero-capacity slice); otherwise lo hi bytes... *)
@@ -124,5 +124,24 @@ Definition run_xmlspec (l : list Z) : list Z :=
   | Some (items, _) =>
       if doc_okb items
       then -4 :: enc_bytes (render_doc items) ++ len (expect_doc items) :: concat (map enc_etok (expect_doc items)) ++ [1]
+      else [-5]
+  end.
+
+(* ---- third entry point: the reference semantics (Xml/Agree.v) ---------------------------------------------------- *)
+(* case: a document as for xmlspec.  output: -9 / -5 as above, otherwise
+   -4 nevents (kind name [nattrs (name value)*])*   kind: 0 start, 1 end, 2 processing instruction *)
+Definition enc_xevent (e : xevent) : list Z :=
+  match e with
+  | EStart n attrs => 0 :: enc_bytes n ++ len attrs :: concat (map (fun a => enc_bytes (fst a) ++ enc_bytes (snd a)) attrs)
+  | EEnd n => 1 :: enc_bytes n
+  | EPI t => 2 :: enc_bytes t
+  end.
+
+Definition run_xmlref (l : list Z) : list Z :=
+  match (c <- dec_count l ;; dec_n dec_item (fst c) (snd c)) with
+  | None => [-9]
+  | Some (items, _) =>
+      if doc_okb items
+      then -4 :: len (ref_events items) :: concat (map enc_xevent (ref_events items))
       else [-5]
   end.
